@@ -108,12 +108,13 @@ func contID(v interface{}) (uintptr, bool) {
 }
 
 type location struct {
-	ok    bool
-	cont  uintptr
-	cid   int // stable number of the container (walk order), for messages and digests
-	key   string
-	idx   int
-	isMap bool
+	ok        bool
+	cont      uintptr
+	cid       int  // stable number of the container (walk order), for messages and digests
+	ambiguous bool // several slots hold an equal leaf: the value cannot be located by identity
+	key       string
+	idx       int
+	isMap     bool
 }
 
 func (l location) String() string {
@@ -180,7 +181,12 @@ func (s *c13State) index() (byCont map[uintptr]location, byLeaf map[string]locat
 			switch child.(type) {
 			case map[string]interface{}, []interface{}:
 			default:
-				byLeaf[canon(child)] = l
+				k := canon(child)
+				if _, dup := byLeaf[k]; dup {
+					byLeaf[k] = location{ambiguous: true}
+				} else {
+					byLeaf[k] = l
+				}
 			}
 		}
 	}
@@ -318,6 +324,12 @@ func runC13() *RunResult {
 				if !hasFunc {
 					loc = st.locate(pres[i], byCont, byLeaf)
 				}
+				if loc.ambiguous {
+					// equal leaves at several slots (after Set(nil), Set(true) …): which slot this
+					// result stands for cannot be told from outside; the accessor is not tracked
+					t.probe("result-not-locatable-by-identity(not-judged)")
+					continue
+				}
 				t.judged++
 				if loc.ok && a.Set == nil {
 					t.fail("C13:set-missing-on-location", p.Text, fmt.Sprintf("%v: result %d is the value at %v but Set is nil", o, i, loc))
@@ -368,7 +380,7 @@ func runC13() *RunResult {
 	for h := 0; h < nh; h++ {
 		switch rn(8) {
 		case 0, 1, 2, 3: // Set through accessor i
-			pickI := rn(64)
+			pickI := rn(64 * 8)
 			o := &Op{Kind: opCustom, Path: &PathSpec{Text: "Set"}}
 			o.Do = func(t *Task, o *Op) {
 				if st.dead {
@@ -387,7 +399,17 @@ func runC13() *RunResult {
 				}
 				i := cand[pickI%len(cand)]
 				st.seq++
-				v := fmt.Sprintf("SET-%d", st.seq)
+				var v interface{} = fmt.Sprintf("SET-%d", st.seq)
+				switch pickI / 64 % 8 {
+				case 0:
+					v = nil // JSON null is a value like any other
+				case 1:
+					v = float64(st.seq)
+				case 2:
+					v = st.seq%2 == 0
+				case 3:
+					v = ""
+				}
 				o.Path = &PathSpec{Text: st.accPath[i]}
 				func() {
 					defer func() {
@@ -399,7 +421,7 @@ func runC13() *RunResult {
 				}()
 				st.modelWrite(st.locs[i], v)
 				if o.Got == "" {
-					o.Got = fmt.Sprintf("accessor %d (%v) Set(%q)", i, st.locs[i], v)
+					o.Got = fmt.Sprintf("accessor %d (%v) Set(%s)", i, st.locs[i], canon(v))
 				}
 				t.probe("set-through-accessor")
 				st.verify(t, o, o.Got)
